@@ -12,7 +12,8 @@ REPO = "/repo"
 MUTANTS = [
     ("C03", "column-sort", "typhon/trees.py", 'indexed_intervals[order]', 'np.sort(indexed_intervals, axis=0)'),
     ("C03", "any-empty", "typhon/trees.py", 'if intervals.shape[0] == 0:', 'if not intervals.any():'),
-    ("C03", "left-descent-strict", "typhon/trees.py", 'if query_interval[0] <= node.center_point and node.left', 'if query_interval[0] < node.center_point and node.left'),
+    # (`<=` -> `<` on either descent condition is an EQUIVALENT mutant: the left subtree only holds intervals ending before the centre)
+    ("C03", "left-descent-wrong-end", "typhon/trees.py", 'if query_interval[0] <= node.center_point and node.left', 'if query_interval[1] <= node.center_point and node.left'),
     ("C03", "overlap-strict", "typhon/trees.py", 'return interval1[0] <= interval2[1] and interval1[1] >= interval2[0]', 'return interval1[0] < interval2[1] and interval1[1] >= interval2[0]'),
     ("C03", "point-right", "typhon/trees.py", 'intervals.extend(self._query_point(point, node.right))', 'pass'),
     ("C01", "no-lookback", "typhon/files/fileset.py", 'dir_start = start - self._sub_dir_time_resolution', 'dir_start = start'),
@@ -26,9 +27,20 @@ MUTANTS = [
     ("C03", "match-unsorted-partners", "typhon/files/fileset.py", "matches = [files2[oi] for oi in sorted(overlapping_files)]", "matches = [files2[oi] for oi in sorted(overlapping_files, reverse=True)]"),
     ("C16", "argmin-start-only", "typhon/files/fileset.py", "intervals = np.min(np.abs(np.asarray(times) - timestamp), axis=1)", "intervals = np.abs(np.asarray(times) - timestamp)[:, 0]"),
     ("C16", "one-sided-window", "typhon/files/fileset.py", "            end = timestamp + self._sub_dir_time_resolution", "            end = timestamp + timedelta(microseconds=1)"),
-    ("C16", "covering-strict", "typhon/files/fileset.py", "if IntervalTree.interval_contains(time_coverage, timestamp):", "if time_coverage[0] < timestamp < time_coverage[1]:"),
+    # (a strict covering test is an EQUIVALENT mutant: a file touching t has distance 0 and wins the argmin)
+    ("C16", "covering-start-only", "typhon/files/fileset.py", "if IntervalTree.interval_contains(time_coverage, timestamp):", "if time_coverage[0] <= timestamp:"),
     ("C16", "filters-dropped", "typhon/files/fileset.py", "files = list(self.find(start, end, sort=False, filters=filters))", "files = list(self.find(start, end, sort=False))"),
     ("C16", "shortcut-excluded", "typhon/files/fileset.py", "                if not self.is_excluded(file_info):\n                    return file_info", "                return file_info"),
+    ("C02", "doy-off-by-one", "typhon/files/fileset.py", "(start_time - datetime(start_time.year, 1, 1)).days\n                    + 1),", "(start_time - datetime(start_time.year, 1, 1)).days\n                    + 0),"),
+    ("C02", "doy-parse-off", "typhon/files/fileset.py", "date = datetime(args[\"year\"], 1, 1) + timedelta(doy - 1)", "date = datetime(args[\"year\"], 1, 1) + timedelta(doy)"),
+    ("C02", "year2-threshold", "typhon/files/fileset.py", "    year2_threshold = 65", "    year2_threshold = 50"),
+    ("C02", "no-rollover", "typhon/files/fileset.py", "            if end_date < start_date:\n                end_date += self._end_time_superior", "            if False:\n                end_date += self._end_time_superior"),
+    ("C02", "rollover-le", "typhon/files/fileset.py", "            if end_date < start_date:\n                end_date += self._end_time_superior", "            if end_date <= start_date:\n                end_date += self._end_time_superior"),
+    ("C02", "ms-round", "typhon/files/fileset.py", "                millisecond=\"{:03d}\".format(\n                    int(start_time.microsecond / 1000)),", "                millisecond=\"{:03d}\".format(\n                    round(start_time.microsecond / 1000)),"),
+    ("C02", "dot-unescaped", "typhon/files/fileset.py", '.replace(".", r"\\.")', ''),
+    ("C02", "no-end-anchor", "typhon/files/fileset.py", 'regex_string = "^" + path.format(**placeholder) + "$"', 'regex_string = "^" + path.format(**placeholder)'),
+    ("C02", "handler-none-overwrites", "typhon/files/handlers/common.py", "if other_info.times[1] is not None or not ignore_none_time:", "if True:"),
+    ("C02", "superior-wrong-unit", "typhon/files/fileset.py", "superior_resolution = resolutions[highest_resolution_index - 1]", "superior_resolution = resolutions[highest_resolution_index]"),
 ]
 
 
